@@ -13,7 +13,7 @@ typedef struct S_ZTSSt18_Fwd_list_iteratorIN3ipr4impl6StringEE fit_t;
 #endif
 typedef struct S_ZTSN3ipr4util6stringE ustring_t;
 #define WORDS g__ZN3ipr4impl12_GLOBAL__N_111known_wordsE
-#define NWORD 56
+#define NWORD ((int)(sizeof(WORDS) / sizeof(WORDS[0])))      /* the table's size as clang evaluated it, not a constant of this harness */
 #define AS_STRING(s) (&(s)->__b0.__b0.__b0)      /* impl::String -> ipr::String */
 
 /* ---- std::lower_bound on the reserved-word table: first element for which comp(elem, value) is false (specification
